@@ -183,7 +183,70 @@ def build_harness(scale=None):
                      "replace github.com/alibaba/RedisShake => %s\n" % SRC)
     shutil.copyfile(os.path.join(SRC, "go.sum"), os.path.join(HARNESS, "go.sum"))
     rc, out = sh(["go", "build", "-tags", "verif", "-overlay", ov, "-o", exe, "."], cwd=HARNESS, env=GOENV)
+    HARNESS_DROPPED[scale] = []
+    if rc != 0:
+        rc, out = degrade_build(ov, exe, out, scale)
     return rc == 0, out
+
+
+HARNESS_DROPPED = {}    # scale -> [(file, first error line)] left out of the binary that was finally built
+
+
+def degrade_build(ov, exe, first_out, scale):
+    """The harness is ONE binary for twenty properties, and its hook files reach into unexported parts of /repo. When a
+    file no longer compiles against the current source (a renamed field, a changed signature) that must not take the
+    other properties down: the file is left out — a hook is no longer injected, a harness file is replaced by an empty
+    `package main` — and the build is repeated; files that depended on it fail next and are left out too. The properties
+    whose registration went with them report `harness-build` (with the compiler's message); the rest run normally."""
+    repl = json.load(open(ov))["Replace"]
+    hooks_root = os.path.join(HARNESS, "hooks")
+    stub = os.path.join(BUILD, "stub_main.go")
+    write_if_changed(stub, "package main\n")
+    dropped = []
+    out = first_out
+    for _ in range(12):
+        bad = {}
+        for m in re.finditer(r"^(\S+?\.go):\d+(?::\d+)?: (.*)$", out, re.M):
+            bad.setdefault(m.group(1), m.group(2))
+        progress = False
+        for f, msg in bad.items():
+            ap = os.path.normpath(os.path.join(HARNESS, f)) if not os.path.isabs(f) else f
+            if ap.startswith(hooks_root + os.sep):
+                # a hook: stop injecting it
+                for k, v in list(repl.items()):
+                    if os.path.normpath(v) == ap:
+                        del repl[k]
+                        dropped.append((os.path.relpath(ap, VERIF), msg))
+                        progress = True
+            elif os.path.dirname(ap) == HARNESS and os.path.basename(ap) != "main.go":
+                if repl.get(ap) != stub:
+                    repl[ap] = stub
+                    dropped.append((os.path.relpath(ap, VERIF), msg))
+                    progress = True
+            else:
+                # an injected hook is reported under the path it is injected at
+                if ap in repl and os.path.normpath(repl[ap]).startswith(hooks_root + os.sep):
+                    dropped.append((os.path.relpath(repl[ap], VERIF), msg))
+                    del repl[ap]
+                    progress = True
+        if not progress:
+            return 1, out
+        ov2 = ov.replace(".json", "-degraded.json")
+        open(ov2, "w").write(json.dumps({"Replace": repl}, indent=1, sort_keys=True))
+        rc, out = sh(["go", "build", "-tags", "verif", "-overlay", ov2, "-o", exe, "."], cwd=HARNESS, env=GOENV)
+        if rc == 0:
+            HARNESS_DROPPED[scale] = dropped
+            return 0, "degraded build: left out " + ", ".join(d[0] for d in dropped)
+    return 1, out
+
+
+def harness_serves(pid, scaled=False):
+    exe = os.path.join(BUILD, "vharness-scaled" if scaled else "vharness")
+    try:
+        p = subprocess.run([exe, "list"], stdout=subprocess.PIPE, stderr=subprocess.PIPE, timeout=60)
+        return pid in p.stdout.decode().split()
+    except (OSError, subprocess.TimeoutExpired):
+        return False
 
 
 # ---------------------------------------------------------------- lean
@@ -417,10 +480,19 @@ def run_property(pid, tier, seed, replay=None):
         hok, hout = build_harness()
         if not hok:
             broken.append(("harness-build", hout[-1500:]))
+        elif not harness_serves(pid):
+            hok = False
+            broken.append(("harness-build", "the harness files of %s no longer compile against the current source and were left "
+                           "out of the build:\n%s" % (pid, "\n".join("%s: %s" % d for d in HARNESS_DROPPED.get(None, [])))))
+        elif HARNESS_DROPPED.get(None):
+            print("NOTE: harness built without %s (they do not compile against this tree; property %s does not need them)"
+                  % (", ".join(d[0] for d in HARNESS_DROPPED[None]), pid))
         if spec.get("scaled"):
             sok, sout = build_harness(scale=spec["scaled"])
             if not sok:
                 broken.append(("harness-scaled-build", sout[-1500:]))
+            elif not harness_serves(pid, scaled=True):
+                broken.append(("harness-scaled-build", "left out of the scaled build: " + ", ".join(d[0] for d in HARNESS_DROPPED.get(spec["scaled"], []))))
         lok, lout = lake_build([module, "rsdriver", "RSVerif.Audit"])
         thms, bad_ax = [], []
         if not lok:
